@@ -63,30 +63,7 @@ def run(ck):
 
     # ---------------------------------------------------------------- R2
     w = m.func("MemArray.write")
-    loops = [n for n in walk_body(w) if isinstance(n, ast.For) and "expr.size // 8" in norm(n.iter)]
-    ck.need(loops, "MemArray.write: byte loop not found")
-    idx = norm(loops[0].target)
-    ok = any(isinstance(n, ast.Assign) and norm(n.targets[0]).startswith("self._offset_to_expr[") and norm(n.value) == "(%s, expr)" % idx
-             for n in walk_local(loops[0]))
-    ck.ob("R2", "MemArray.write:stored-index", ok, m.where(w), "byte %s of the value must be stored as (%s, expr)" % (idx, idx))
-    ok = any(isinstance(n, ast.Assign) and norm(n.targets[0]) == "request_offset" and
-             norm(n.value).replace(" ", "").replace("(", "").replace(")", "") == "offset+%s&self._mask" % idx for n in walk_local(loops[0]))
-    ck.ob("R2", "MemArray.write:address", ok, m.where(w), "byte %s must be stored at (offset + %s) & mask" % (idx, idx))
-    r = m.func("MemArray.read")
-    ok = any(isinstance(n, ast.Assign) and isinstance(n.targets[0], ast.Tuple) and [norm(e) for e in n.targets[0].elts] == ["off", "data"]
-             and norm(n.value) == "self._offset_to_expr[request_offset]" for n in walk_body(r)) and \
-        any(isinstance(c, ast.Call) and dotted(c.func) == "parts.append" and norm(c.args[0]) == "(off, 1, data)" for c in walk_body(r))
-    ck.ob("R2", "MemArray.read:part", ok, m.where(r), "a known byte must be read back as (stored index, 1, stored value)")
-    ok = any(isinstance(n, ast.Assign) and norm(n.targets[0]) == "data" and norm(n.value).replace(" ", "") == "data[off*8:(off+bytesize)*8]" for n in walk_body(r))
-    ck.ob("R2", "MemArray.read:slice", ok, m.where(r), "a part must be extracted as value[off*8:(off+n)*8] (little endian)")
-    ok = any(isinstance(c, ast.Call) and callee_attr(c) == "ExprInt" and c.args and
-             norm(c.args[0]).replace(" ", "") == "int2<<size_a*8|int1" and norm(c.args[1]).replace(" ", "") == "(size_a+size_b)*8" for c in walk_body(r))
-    ck.ob("R2", "MemArray.read:int-merge", ok, m.where(r), "adjacent integer parts must merge as (second << 8*size_first) | first")
-    sr = m.func("MemSparse.read")
-    ok = any(isinstance(n, ast.Assign) and norm(n.targets[0]) == "ret" and "ExprCompose(*mems)" in norm(n.value) for n in walk_body(sr)) and \
-        any(isinstance(n, ast.Assign) and norm(n.targets[0]) == "mems" and norm(n.value) == "memarray.read(offset, size)" for n in walk_body(sr))
-    ck.ob("R2", "MemSparse.read:compose-order", ok, m.where(sr), "parts must be composed in address order (lowest address = lowest bits)")
-
+    byte_order_rules(ck, m, "R2")
     # ---------------------------------------------------------------- R3
     ok = False
     for n in walk_body(w):
@@ -119,6 +96,59 @@ def run(ck):
 
     # ---------------------------------------------------------------- R5 the export walk covers every stored byte once
     _r5_export_partition(ck, m)
+
+
+def byte_order_rules(ck, m, RID):
+    """Writer/reader byte-order agreement of the per-base byte map (shared by C13-R2 and C12-R5)."""
+    w = m.func("MemArray.write")
+    loops = [n for n in walk_body(w) if isinstance(n, ast.For) and "expr.size // 8" in norm(n.iter)]
+    ck.need(loops, "MemArray.write: byte loop not found")
+    idx = norm(loops[0].target)
+    ok = any(isinstance(n, ast.Assign) and norm(n.targets[0]).startswith("self._offset_to_expr[") and norm(n.value) == "(%s, expr)" % idx
+             for n in walk_local(loops[0]))
+    ck.ob(RID, "MemArray.write:stored-index", ok, m.where(w), "byte %s of the value must be stored as (%s, expr)" % (idx, idx))
+    ok = any(isinstance(n, ast.Assign) and norm(n.targets[0]) == "request_offset" and
+             norm(n.value).replace(" ", "").replace("(", "").replace(")", "") == "offset+%s&self._mask" % idx for n in walk_local(loops[0]))
+    ck.ob(RID, "MemArray.write:address", ok, m.where(w), "byte %s must be stored at (offset + %s) & mask" % (idx, idx))
+    r = m.func("MemArray.read")
+    ok = any(isinstance(n, ast.Assign) and isinstance(n.targets[0], ast.Tuple) and [norm(e) for e in n.targets[0].elts] == ["off", "data"]
+             and norm(n.value) == "self._offset_to_expr[request_offset]" for n in walk_body(r)) and \
+        any(isinstance(c, ast.Call) and dotted(c.func) == "parts.append" and norm(c.args[0]) == "(off, 1, data)" for c in walk_body(r))
+    ck.ob(RID, "MemArray.read:part", ok, m.where(r), "a known byte must be read back as (stored index, 1, stored value)")
+    ok = any(isinstance(n, ast.Assign) and norm(n.targets[0]) == "data" and norm(n.value).replace(" ", "") == "data[off*8:(off+bytesize)*8]" for n in walk_body(r))
+    ck.ob(RID, "MemArray.read:slice", ok, m.where(r), "a part must be extracted as value[off*8:(off+n)*8] (little endian)")
+    ok = any(isinstance(c, ast.Call) and callee_attr(c) == "ExprInt" and c.args and
+             norm(c.args[0]).replace(" ", "") == "int2<<size_a*8|int1" and norm(c.args[1]).replace(" ", "") == "(size_a+size_b)*8" for c in walk_body(r))
+    ck.ob(RID, "MemArray.read:int-merge", ok, m.where(r), "adjacent integer parts must merge as (second << 8*size_first) | first")
+    # the low part of the merge is exactly the bytes it covers: bits above 8*size_first would be or-ed into the second part
+    # (the second part may keep high bits: ExprInt drops what exceeds the merged width)
+    from sa.astutil import straightline_env
+    ok = False
+    detail = "integer merge branch not found"
+    for n in walk_body(r):
+        if isinstance(n, ast.If) and "data_a.is_int()" in norm(n.test) and "data_b.is_int()" in norm(n.test):
+            env = straightline_env(n.body)
+            merged = [c for c in walk_local(ast.Module(body=n.body, type_ignores=[])) if isinstance(c, ast.Call) and callee_attr(c) == "ExprInt"]
+            if not merged or not isinstance(merged[0].args[0], ast.BinOp) or not isinstance(merged[0].args[0].op, ast.BitOr):
+                continue
+            bor = merged[0].args[0]
+            low = bor.right if isinstance(bor.left, ast.BinOp) and isinstance(bor.left.op, ast.LShift) else bor.left
+            lowx = env.get(low.id) if isinstance(low, ast.Name) else low
+            t = norm(lowx).replace(" ", "") if lowx is not None else "?"
+            for wrap_ in ("self.expr_simp(", "int(", "expr_simp("):
+                t = t.replace(wrap_, "(")
+            while "((" in t or "))" in t:
+                t = t.replace("((", "(").replace("))", ")")
+            bounded = "data_a[off_a*8:(off_a+size_a)*8]" in t or \
+                ("data_a)>>off_a*8" in t.replace("(off_a*8)", "off_a*8") and ("&(1<<size_a*8)-1" in t or "%(1<<size_a*8)" in t))
+            ok = bounded
+            detail = "the first (low-address) integer part is taken as `%s`: it is not limited to its %s bytes" % (norm(lowx)[:70], "size_a")
+    ck.ob(RID, "MemArray.read:int-merge-low-part-bounded", ok, m.where(r), detail)
+    sr = m.func("MemSparse.read")
+    ok = any(isinstance(n, ast.Assign) and norm(n.targets[0]) == "ret" and "ExprCompose(*mems)" in norm(n.value) for n in walk_body(sr)) and \
+        any(isinstance(n, ast.Assign) and norm(n.targets[0]) == "mems" and norm(n.value) == "memarray.read(offset, size)" for n in walk_body(sr))
+    ck.ob(RID, "MemSparse.read:compose-order", ok, m.where(sr), "parts must be composed in address order (lowest address = lowest bits)")
+
 
 
 class _Opaque(object):
